@@ -546,11 +546,14 @@ def coeff_store(ctx):
     truncated to 0 - evaluation is then not linear in the coefficients."""
     from ..match import match, parse
     P = ctx.P
-    res = Result('COEFF-STORE', 'Zernike constructors keep the coefficient '
-                 'sequence as given or as a float array (never an integer '
-                 'array); ZernikeFit hands its family num_terms zeros')
+    res = Result('COEFF-STORE', 'Zernike constructors keep their own copy of the '
+                 'coefficient sequence, as a list or float array (never '
+                 'the shared default list, never an integer array); ZernikeFit hands its family num_terms zeros')
+    # the bare parameter is not acceptable: the default argument is one
+    # mutable list shared by every default-constructed instance, so
+    # `a.coeffs[4] = 2` would change the polynomial of all of them
     ok_forms = [parse(x) for x in (
-        'coeffs', 'list(coeffs)', 'np.asarray(coeffs, dtype=float)',
+        'list(coeffs)', 'np.asarray(coeffs, dtype=float)',
         'np.array(coeffs, dtype=float)', 'np.asarray(coeffs, dtype=np.float64)',
         'np.array(coeffs, dtype=np.float64)', 'np.asarray(coeffs, float)',
         'np.array(coeffs, float)', '[float($c) for $c in coeffs]',
@@ -570,9 +573,11 @@ def coeff_store(ctx):
                 else:
                     res.fail(ctx.finding(
                         'COEFF-STORE', f, st,
-                        f'{cn}.__init__ stores {unparse(st.value)}: an '
-                        f'integer coefficient list becomes an integer array '
-                        f'and later non-integer coefficients are truncated',
+                        f'{cn}.__init__ stores {unparse(st.value)}: either '
+                        f'the shared (default) list itself, so that editing '
+                        f'one object edits the others, or an array without '
+                        f'float dtype, so that later non-integer '
+                        f'coefficients are truncated',
                         construct=f'{cn} coefficient store'))
     if n < 1:
         raise AnalysisError('COEFF-STORE: no coefficient store found')
